@@ -4,7 +4,7 @@ from __future__ import annotations
 import ast
 
 from ..cfg import KILL, typestate, witness_path
-from ..core import INCONCLUSIVE, OK, VIOLATION, Ctx, is_self_attr
+from ..core import INCONCLUSIVE, OK, VIOLATION, Ctx, is_self_attr, local_defs
 from ..model import AnalysisError, body_walk, norm
 from . import c05
 from .common import consult_verdict, active_store, calls_method, cond_consult, history_mutations, is_history_append, node_has_effect
@@ -562,6 +562,54 @@ def r06_11(ctx: Ctx):
     return out
 
 
+def r06_14(ctx: Ctx):
+    """R06.14 only the deme itself writes its history: once inactive (or while asleep) nothing else can change it."""
+    from .common import foreign_history_writes
+
+    return foreign_history_writes(ctx, "R06.14", "a deme's history changes without the deme having run a metaepoch (also when it is inactive or asleep)")
+
+
+def r06_12(ctx: Ctx):
+    """R06.12 a deme evaluates only through its own counting wrapper: no population it evaluates or breeds from contains another
+    deme's Individual object (R03.11) - otherwise the evaluations of a running child go through the wrapper of its parent, i.e.
+    a parent that has stopped (or sleeps) keeps evaluating the objective."""
+    from . import c03
+
+    out = []
+    for o in c03.r03_11(ctx):
+        o.rule = "R06.12"
+        out.append(o)
+    return out
+
+
+def r06_13(ctx: Ctx):
+    """R06.13 the stop conditions a deme / the tree consults are the configured objects themselves: `_lsc` is the level
+    configuration's `lsc` and `_gsc` the tree configuration's `gsc`, not a copy (a copy made at construction time no longer
+    sees what the configured condition refers to, so the deme stays active although ITS condition holds)."""
+    obs = []
+    for cname, attr, src in (("AbstractDeme", "_lsc", "lsc"), ("DemeTree", "_gsc", "gsc")):
+        init = ctx.prog.own_method(cname, "__init__")
+        sn = init.self_name()
+        defs = local_defs(init)
+        st = [n for n in body_walk(init.node) if isinstance(n, (ast.Assign, ast.AnnAssign)) and getattr(n, "value", None) is not None and any(is_self_attr(t, attr, sn) for t in (n.targets if isinstance(n, ast.Assign) else [n.target]))]
+        if len(st) != 1:
+            obs.append(ctx.ob("R06.13", init, init.node, status=INCONCLUSIVE, detail=f"{cname}.__init__ stores `{attr}` {len(st)} times", construct=f"{cname}.{attr}"))
+            continue
+        v = st[0].value
+        hops = 0
+        while isinstance(v, ast.Name) and len(defs.get(v.id, [])) == 1 and hops < 3:
+            v = defs[v.id][0]
+            hops += 1
+        t = norm(v)
+        if isinstance(v, ast.Attribute) and v.attr == src:
+            obs.append(ctx.ob("R06.13", init, st[0], detail=f"{cname}.{attr} is the configured `{src}` object", construct=f"{cname}.{attr}"))
+        elif isinstance(v, ast.Call) and norm(v.func).split(".")[-1] in ("deepcopy", "copy", "clone", "__class__") and v.args and isinstance(v.args[0], ast.Attribute) and v.args[0].attr == src:
+            obs.append(ctx.ob("R06.13", init, st[0], status=VIOLATION, detail=f"{cname}.{attr} is `{t[:70]}`, a copy of the configured stop condition taken at construction time: whatever the configured condition refers to outside the deme (a shared budget, a flag toggled by the user) is frozen in the copy, so the condition the user configured can hold while the deme stays active", construct=f"{cname}.{attr}"))
+        else:
+            obs.append(ctx.ob("R06.13", init, st[0], status=INCONCLUSIVE, detail=f"{cname}.{attr} is `{t[:70]}`: not recognisably the configured `{src}`", construct=f"{cname}.{attr}"))
+    return obs
+
+
 RULES = [
     ("R06.1", r06_1, 10),
     ("R06.2", r06_2, 5),
@@ -574,4 +622,7 @@ RULES = [
     ("R06.9", r06_9, 7),
     ("R06.10", r06_10, 1),
     ("R06.11", r06_11, 1),
+    ("R06.12", r06_12, 3),
+    ("R06.13", r06_13, 2),
+    ("R06.14", r06_14, 1),
 ]
